@@ -82,15 +82,25 @@ PROPS = {
     "C17": {
         "engine": "kani",
         "files": ["c17.rs"],
+        "timeout": {"quick": 600, "thorough": 1800},
+        "extra_patches": [GETRANDOM_PATCH],
+        "transforms": [
+            {"file": "src/actor/spawn.rs", "regex": r"^fn on_command<A, E>\(", "repl": "pub(crate) fn on_command<A, E>(", "min": 1},
+            {"file": "src/actor/spawn.rs", "regex": r"^enum Interrupt<T, R> \{", "repl": "pub(crate) enum Interrupt<T, R> {", "min": 1},
+            {"file": "src/actor/spawn.rs", "regex": r"std::collections::", "repl": "crate::verif_models::", "min": 1},
+            {"file": "src/actor.rs", "regex": r"^mod spawn;", "repl": "pub(crate) mod spawn;", "min": 1},
+        ],
         "explanation": (
-            "Bounded symbolic model checking (Kani/CBMC) of the two real From impls in src/actor/spawn.rs over the FULL input "
+            "Bounded symbolic model checking (Kani/CBMC) of (a) the two real From impls in src/actor/spawn.rs over the FULL input "
             "space: every u64 id below 2^48 round-trips through SocketAddrV4 and has exactly its bytes as octets/port; every "
             "(a,b,c,d,port) round-trips through Id and yields a 48-bit id; two ids map to the same address exactly when their low "
-            "48 bits agree (injectivity both ways). Loop-free bit-vector code, no unwinding bound needed."
+            "48 bits agree; (b) the timer bookkeeping of the UDP runtime, the real on_command(), with Instant::now() stubbed by a symbolic "
+            "non-decreasing clock: after SetTimer(t,d) [SetTimer(t,d')] the deadline of t is at least (time of the LATEST arming) + d', re-arming "
+            "creates no second entry, CancelTimer(t) leaves t not due for >400 years, cancelling an unset timer arms nothing, other timers untouched."
         ),
-        "bounds": {"ids": "all u64 (bijection asserted on ids < 2^48)", "addresses": "all 2^48 IPv4 socket addresses"},
-        "outside": ["the UDP runtime loop of spawn(): sockets, OS clock, rand::thread_rng, crossbeam scoped threads (on_start ordering, datagram routing, timer arming/cancelling, state threading) - not symbolically executable"],
-        "assumptions": COMMON_ASSUME,
+        "bounds": {"ids": "all u64 (bijection asserted on ids < 2^48)", "addresses": "all 2^48 IPv4 socket addresses", "timers": "2 timers, durations 0..65535 s (degenerate ranges), <=2 armings + 1 cancel, clock steps < 10^6 s"},
+        "outside": ["the event loop of spawn(): sockets, recv timeouts, which interrupt fires when, on_start ordering, datagram routing, state threading - inside a closure over real UDP sockets, not symbolically executable", "timer ranges with start < end (jitter via rand::thread_rng)", "ChooseRandom in the runtime"],
+        "assumptions": COMMON_ASSUME + ["std::time::Instant::now stubbed by a symbolic non-decreasing clock (kani::stub)", "on_command/Interrupt/mod spawn made pub(crate) in the scratch copy (visibility only)", "HashMap of pending interrupts is the Vec-backed model (scratch copy of spawn.rs)", "once_cell/getrandom models"],
     },
     "C18": {
         "engine": "kani",
